@@ -419,7 +419,7 @@ func c17StdinFaults(env *core.Env, base core.Store, target string) map[string]in
 	}
 	var jobs []job
 	for _, c := range cases {
-		for k := 1; k <= 4; k++ {
+		for k := 0; k <= 4; k++ { // k = 0: no fault, only the chunked delivery (short reads)
 			jobs = append(jobs, job{c, k})
 		}
 	}
@@ -484,7 +484,7 @@ func c17StdinFaults(env *core.Env, base core.Store, target string) map[string]in
 			map[string]interface{}{"kind": "stdin-fault", "store": base, "args": j.c.args, "chunks": j.c.chunks, "k": j.k, "body": body, "show": j.c.show})
 	})
 	return map[string]interface{}{"runs": runs, "runs_with_the_fault_delivered": injectedRuns, "command_failed_cleanly": failed, "command_succeeded_with_whole_text": okRuns,
-		"rule": "5 commands reading text from standard input (3 x --body-stdin, 2 x JSON) x EIO on read 1..4 of a 3-chunk input; exit 0 => the stored body is the whole input, exit non-zero => log unchanged"}
+		"rule": "5 commands reading text from standard input (3 x --body-stdin, 2 x JSON) x {no fault, EIO on read 1..4} of a 3-chunk input (every chunk arrives in a read of its own); exit 0 => the stored body is the whole input, exit non-zero => log unchanged"}
 }
 
 func init() {
